@@ -123,3 +123,18 @@ prop("C09",
           "timeout": {"quick": 1500, "thorough": 7200}},
          {"name": "asan", "build": "asan", "bin": "c09"},
      ])
+
+prop("C11",
+     technique="runtime monitoring: reference recomputation over the last N inputs (double-double) with a running rigorous floating-point error bound; same monitor built against std and no_std dasp",
+     level_text=("Histories (random, loud-then-silent, alternating, tiny/large magnitudes, constant, ramps, bursts; resets and current()/next_squared() interleaved) for "
+                 "windows {1,2,3,4,7,64,1000} x channels {1,2,5} x formats {f32,f64,i16,u8,I24,i32,U48}, lengths to 20 000 (quick) / 200 000 (thorough), through the "
+                 "detector and the signal adaptor (one pull per output). Every output is checked against sqrt(mean of squares of the exact last-N inputs) within an "
+                 "a-posteriori error bound; the identical monitor is compiled against dasp with default-features=false (nightly) for the no_std sqrt. Exploration: "
+                 "histories are unbounded."),
+     level_note="trusted: double-double reference sums (error ~1e-32 relative, recomputed exactly every 2048 steps); the bound covers the two rounded operations per step, the rounded squares and division, and underflow; no_std envelope is the statement's 7% + 2^-60 / 2^-500",
+     rule=("cases are (format, window N, channels, history kind, length) configurations, each producing one check per frame and channel; non-trivial = every configuration "
+           "other than the doc-test's (f32/f64 mono window-4 constant input); distinct by hash of the configuration; evaluations = individual output checks"),
+     stages=[
+         {"name": "main", "build": "fast", "bin": "c11"},
+         {"name": "nostd", "build": "nostd", "bin": "c11", "set": {"sqrt": "approx"}},
+     ])
